@@ -1,5 +1,6 @@
 import Ruint.Lemmas.History
 import Ruint.Gen.GuardGraph
+import Ruint.Lemmas.GenCore
 
 /-!
 # C04 — values stay canonical; `==`, `Hash`, `Ord` follow the number; ill-formed types are empty
@@ -204,5 +205,16 @@ theorem guard_graph_detects_old_defect :
 example : Cmp.cmp [5, 1] [7, 0] = .gt ∧ Cmp.cmp [0, 1] [0, 1] = .eq := by decide +kernel
 example : (run 65 [[1, 0], [W - 1, 1]] [.wadd 0 0 1, .max 1, .wneg 1 1]) = [[0, 0], [1, 0]] := by
   decide +kernel
+
+/-! ## Tie of `mask` / `nlimbs` to the source (G)
+
+`Ruint.Gen.mask` and `Ruint.Gen.nlimbs` are regenerated from `src/lib.rs` by `tools/rs2lean.py` on every
+run. They equal the `mask` / `nlimbs` every model and every `Canon` statement of this development uses,
+so "canonical" means what the source's `MASK` / `LIMBS` say now. -/
+
+theorem gen_mask_eq (bits : ℕ) : Ruint.Gen.mask bits = Ruint.mask bits := Ruint.GenCore.mask_eq bits
+
+theorem gen_nlimbs_eq (bits : ℕ) (h : bits + 63 < 2 ^ 64) : Ruint.Gen.nlimbs bits = Ruint.nlimbs bits :=
+  Ruint.GenCore.nlimbs_eq bits h
 
 end Ruint.C04
